@@ -78,8 +78,16 @@ class DictNode(Node):
         content = gettype(self.module_name, self.class_name)()
         key_types = self.children["key_types"].construct()
         for k_type, (key, val) in zip(key_types, self.children["content"].items()):
-            content[k_type(key)] = val.construct()
+            content[_construct_key(k_type, key)] = val.construct()
         return content
+
+
+def _construct_key(k_type: Any, key: str) -> Any:
+    # json stores the keys True/False as "true"/"false"; bool() of any non-empty
+    # string is True, so these two need to be mapped back explicitly.
+    if k_type is bool or k_type is np.bool_:
+        return k_type(key == "true")
+    return k_type(key)
 
 
 def defaultdict_get_state(obj: Any, save_context: SaveContext) -> dict[str, Any]:
